@@ -478,9 +478,14 @@ func ruleMigrateRound2(c *Ctx) {
 	if c.Prop == "C13" {
 		rulePackagelessRendererOnlyAsFallback(c, "C13.7")
 		ruleImportSnapshotLast(c, "C13.8")
+		ruleMigrateRendererFidelity(c, "C13.9")
+		ruleFieldsMergedPerStruct(c, "C13.10")
 	} else {
 		rulePackagelessRendererOnlyAsFallback(c, "C14.6")
 		ruleNoImportForSkippedFields(c, "C14.8", ruleImportSnapshotLast(c, "C14.7"))
+		ruleMigrateRendererFidelity(c, "C14.9")
+		rulePackageMismatchRefused(c, "C14.10")
+		ruleInspectVisitsEverything(c, "C14.11")
 	}
 	if c.Prop == "C13" {
 		// C13.5 the bound-type set is computed from the element list being transformed
